@@ -271,6 +271,10 @@ func scenarios(quick bool) (out []scenario) {
 			out = append(out, scenario{-1, []int{opIdx("bg-filter-refresh"), opIdx(w), opIdx(sv)}})
 		}
 	}
+	// Two administrative operations on the same object.
+	for _, pr := range [][2]string{{"clients-update-ids-a", "clients-update-ids-b"}, {"clients-update-ids-a", "clients-update"}, {"clients-update-ids-b", "clients-delete"}, {"clients-add", "clients-update-ids-a"}} {
+		out = append(out, scenario{-1, []int{opIdx(pr[0]), opIdx(pr[1])}})
+	}
 	if !quick {
 		for b := range operations {
 			if !isBG(b) {
@@ -429,6 +433,9 @@ func mkBody(c *lib.Ctx, sc scenario) func() vsync.Body {
 					if m != "" {
 						return "operation-failed: " + m
 					}
+				}
+				if m := clientIndexConsistent(a.clients); m != "" {
+					return "client-registry-inconsistent: " + m
 				}
 				// A queued asynchronous engine rebuild must still work afterwards.
 				if _, err := a.filter.VerifRunPendingInit(); err != nil {
